@@ -173,6 +173,7 @@ var _ eth2client.ValidatorsProvider = (*c13Provider)(nil)
 type c13Rec struct {
 	act, exit, wd phase0.Epoch
 	slashed       bool
+	emptied       bool // the effective balance is zero (after the withdrawable epoch: the withdrawal is done)
 }
 
 func c13Ep(e phase0.Epoch) string {
@@ -183,14 +184,22 @@ func c13Ep(e phase0.Epoch) string {
 }
 
 func (r c13Rec) String() string {
-	return fmt.Sprintf("{activation=%s exit=%s withdrawable=%s slashed=%v}", c13Ep(r.act), c13Ep(r.exit), c13Ep(r.wd), r.slashed)
+	bal := ""
+	if r.emptied {
+		bal = " balance=0"
+	}
+	return fmt.Sprintf("{activation=%s exit=%s withdrawable=%s slashed=%v%s}", c13Ep(r.act), c13Ep(r.exit), c13Ep(r.wd), r.slashed, bal)
 }
 
 func c13Validator(pk phase0.BLSPubKey, idx phase0.ValidatorIndex, r c13Rec) *apiv1.Validator {
-	return &apiv1.Validator{Index: idx, Balance: 32_000_000_000, Validator: &phase0.Validator{
+	bal := phase0.Gwei(32_000_000_000)
+	if r.emptied {
+		bal = 0
+	}
+	return &apiv1.Validator{Index: idx, Balance: bal, Validator: &phase0.Validator{
 		PublicKey:                  pk,
 		WithdrawalCredentials:      make([]byte, 32),
-		EffectiveBalance:           32_000_000_000,
+		EffectiveBalance:           bal,
 		Slashed:                    r.slashed,
 		ActivationEligibilityEpoch: 0,
 		ActivationEpoch:            r.act,
@@ -301,8 +310,8 @@ func c13RefValidating(r c13Rec, e phase0.Epoch) c13Tri {
 }
 
 // c13RefSync: the validating set, and additionally exited and slashed validators until the withdrawable
-// epoch is reached.  From the withdrawable epoch on, "withdrawal done" depends on a balance the record
-// does not determine: open.  Exit or slashing before activation cannot be produced by the chain: open.
+// epoch is reached and, from then on, until the withdrawal is done (the balance is gone).  Exit or slashing
+// before activation, or a withdrawable epoch before the exit epoch, cannot be produced by the chain: open.
 func c13RefSync(r c13Rec, e phase0.Epoch) c13Tri {
 	if r.act > e {
 		if r.slashed || r.exit <= e {
@@ -313,7 +322,13 @@ func c13RefSync(r c13Rec, e phase0.Epoch) c13Tri {
 	if e < r.exit || e < r.wd {
 		return c13In
 	}
-	return c13Open
+	if r.wd < r.exit {
+		return c13Open
+	}
+	if r.emptied {
+		return c13Out
+	}
+	return c13In
 }
 
 // c13Class names the lifecycle phase of a record at an epoch (finding keys, outcomes).
@@ -669,6 +684,9 @@ func c13ChooseRec(e phase0.Epoch, act phase0.Epoch, width int) c13Rec {
 	r.exit = rel[mc.Choose(len(rel))]
 	r.wd = rel[mc.Choose(len(rel))]
 	r.slashed = mc.Choose(2) == 1
+	if r.wd <= e && r.exit <= e {
+		r.emptied = mc.Choose(2) == 1
+	}
 	return r
 }
 
@@ -840,7 +858,7 @@ func c13VMUnits(tier string) []hx.Unit {
 				check("ValidatorsByIndex", vm.ValidatorsByIndex(ctx, idx))
 				for i := range pk {
 					if want, must := last[pk[i]]; must {
-						r := c13Rec{want.Validator.ActivationEpoch, want.Validator.ExitEpoch, want.Validator.WithdrawableEpoch, want.Validator.Slashed}
+						r := c13Rec{want.Validator.ActivationEpoch, want.Validator.ExitEpoch, want.Validator.WithdrawableEpoch, want.Validator.Slashed, want.Validator.EffectiveBalance == 0}
 						for e := phase0.Epoch(0); e <= 3; e++ {
 							state, err := vm.ValidatorStateAtEpoch(ctx, idx[i], e)
 							if err != nil {
@@ -1092,7 +1110,7 @@ func init() {
 		ID:    "C13",
 		Title: "Only configured accounts validate, and only while their validator is active",
 		Rule: "(spec) every specifier list of length <= 2 (thorough <= 3) over {W, W/, W/Val1, W/Val.*, W/Val.*[02], ^W/Val1$, W/^Val1, W/Val1$, W/a|b, X/.*} x wallets {W, Wx, xW, X} each offering accounts {Val1, Val12, Val2, xVal1, a, xb}, through fetchAccountsForWallet of both managers and through the dirk manager's refreshAccounts with all four wallets open; admitted => reference full match ^(?:wallet)/(?:account)$ of some specifier (explicit anchors read literally or as redundant; under-admission is not judged). " +
-			"(state) two validators, each with every record activation/exit/withdrawable in {past, =epoch, future, far-future} (thorough: one of them also +-2 epochs) x slashed, x query epoch 0..3, plus an active bystander and an account without validator, on both managers over the real validators manager: Validating/SyncCommittee AccountsForEpoch and ...ByIndex (five index sets) against the statement's state-at-epoch rule, keyed by the validator's own index; a slashed validator without exit epoch, exit or slashing before activation, and sync eligibility from the withdrawable epoch on are left open. " +
+			"(state) two validators, each with every record activation/exit/withdrawable in {past, =epoch, future, far-future} (thorough: one of them also +-2 epochs) x slashed x (once exited and withdrawable) balance {kept, gone}, x query epoch 0..3, plus an active bystander and an account without validator, on both managers over the real validators manager: Validating/SyncCommittee AccountsForEpoch and ...ByIndex (five index sets) against the statement's state-at-epoch rule, keyed by the validator's own index; sync eligibility lasts from the withdrawable epoch on until the balance is gone (withdrawal done); a slashed validator without exit epoch, exit or slashing before activation, and a withdrawable epoch before the exit epoch are left open. " +
 			"(refresh) every sequence of refresh outcomes: validators manager {set A, set B, empty map, nil map, error} up to 4 (thorough 6) refreshes; dirk manager Refresh with signer outcome {accounts A, accounts B, none, wallet cannot be opened} x beacon node {answer, empty, error} (x second wallet {accounts, none} in the two-wallet configuration) up to 3 (thorough 4) refreshes; after a refresh in which the signer / the node returned nothing every account and validator known before is still known and reported, after a non-empty one the delivered records are in force. " +
 			"non-trivial = a specifier with regex metacharacters or anchors was evaluated / a record lies on an epoch boundary / some refresh returned nothing or failed; distinct = distinct (admitted, reference, over-admitted) counts, lifecycle classes of the two validators, refresh result classes",
 		Assumptions: []string{
